@@ -21,7 +21,8 @@ Record resp := mkResp {
   rs_src : N;         (* SourceUID() *)
   rs_cc : N;          (* CommandClass() *)
   rs_mc : N;          (* MessageCount() *)
-  rs_data : list N }. (* ParamData() *)
+  rs_data : list N;   (* ParamData() *)
+  rs_pid : N }.       (* ParamId() *)
 
 Record reply := mkReply {
   r_status : N;            (* StatusCode() *)
@@ -52,7 +53,7 @@ Record comp := mkComp {
   c_id : N;
   c_kind : N;                 (* 0 answered, 1 rejected (queue full), 2 destroyed *)
   c_reply : reply;
-  c_parts : list (list N);    (* ghost: parameter data of the replies this completion was built from *)
+  c_parts : list resp;        (* ghost: the responses (as handed out by the mock) this completion was built from *)
   c_from : list N }.          (* ghost: ids of the dispatches whose answers (as handed out by the mock) built it *)
 
 Inductive tev :=
@@ -79,7 +80,7 @@ Record st := mkSt {
   h_next : N;
   h_ndid : N;
   h_paused : bool;
-  g_parts : list (list N);
+  g_parts : list resp;
   g_conc : N;
   g_psends : N;
   g_fatal : bool;
@@ -129,7 +130,7 @@ Definition set_h_ndid (v : N) (s : st) : st :=
   mkSt (s_max s) (s_discov s) (s_queue s) (s_pending s) (s_active s) (s_resp s) (s_nframes s) (s_pdisc s) (s_rdisc s) (m_out s) (m_dout s) (m_script s) (m_dscript s) (m_nrun s) (h_next s) v (h_paused s) (g_parts s) (g_conc s) (g_psends s) (g_fatal s) (g_accepted s) (g_done s) (g_runs s) (g_ddone s) (g_trace s) (g_from s) (h_open s) (g_rj s) (h_destroying s) (s_nulls s).
 Definition set_h_paused (v : bool) (s : st) : st :=
   mkSt (s_max s) (s_discov s) (s_queue s) (s_pending s) (s_active s) (s_resp s) (s_nframes s) (s_pdisc s) (s_rdisc s) (m_out s) (m_dout s) (m_script s) (m_dscript s) (m_nrun s) (h_next s) (h_ndid s) v (g_parts s) (g_conc s) (g_psends s) (g_fatal s) (g_accepted s) (g_done s) (g_runs s) (g_ddone s) (g_trace s) (g_from s) (h_open s) (g_rj s) (h_destroying s) (s_nulls s).
-Definition set_g_parts (v : list (list N)) (s : st) : st :=
+Definition set_g_parts (v : list resp) (s : st) : st :=
   mkSt (s_max s) (s_discov s) (s_queue s) (s_pending s) (s_active s) (s_resp s) (s_nframes s) (s_pdisc s) (s_rdisc s) (m_out s) (m_dout s) (m_script s) (m_dscript s) (m_nrun s) (h_next s) (h_ndid s) (h_paused s) v (g_conc s) (g_psends s) (g_fatal s) (g_accepted s) (g_done s) (g_runs s) (g_ddone s) (g_trace s) (g_from s) (h_open s) (g_rj s) (h_destroying s) (s_nulls s).
 Definition set_g_conc (v : N) (s : st) : st :=
   mkSt (s_max s) (s_discov s) (s_queue s) (s_pending s) (s_active s) (s_resp s) (s_nframes s) (s_pdisc s) (s_rdisc s) (m_out s) (m_dout s) (m_script s) (m_dscript s) (m_nrun s) (h_next s) (h_ndid s) (h_paused s) (g_parts s) v (g_psends s) (g_fatal s) (g_accepted s) (g_done s) (g_runs s) (g_ddone s) (g_trace s) (g_from s) (h_open s) (g_rj s) (h_destroying s) (s_nulls s).
@@ -173,9 +174,9 @@ Definition combine (a b : resp) : option resp :=
   if MAX_OVERFLOW_SIZE <? n then None
   else if negb (rs_src a =? rs_src b) then None
   else if (rs_cc a =? GET_COMMAND_RESPONSE) && (rs_cc b =? GET_COMMAND_RESPONSE) then
-    Some (mkResp RDM_ACK (rs_src a) GET_COMMAND_RESPONSE (rs_mc b) (rs_data a ++ rs_data b))
+    Some (mkResp RDM_ACK (rs_src a) GET_COMMAND_RESPONSE (rs_mc b) (rs_data a ++ rs_data b) (rs_pid a))
   else if (rs_cc a =? SET_COMMAND_RESPONSE) && (rs_cc b =? SET_COMMAND_RESPONSE) then
-    Some (mkResp RDM_ACK (rs_src a) SET_COMMAND_RESPONSE (rs_mc b) (rs_data a ++ rs_data b))
+    Some (mkResp RDM_ACK (rs_src a) SET_COMMAND_RESPONSE (rs_mc b) (rs_data a ++ rs_data b) (rs_pid a))
   else None.
 
 (* ---- the mock underlying controller ---- *)
@@ -197,12 +198,14 @@ Definition mock_send (id : N) (s : st) (ag : list frame) : st * list frame :=
   | [] => (s, ag)
   end.
 
-(* the mock writes the id of the request it answers in front of the parameter data *)
+(* the mock writes the id of the request it answers in front of the parameter data, unless the
+   answer carries no parameter data at all (e.g. the empty last frame of an ACK_OVERFLOW sequence) *)
 Definition tag (id : N) (r : reply) : reply :=
   match r_resp r with
   | None => r
   | Some rs => mkReply (r_status r)
-                 (Some (mkResp (rs_type rs) (rs_src rs) (rs_cc rs) (rs_mc rs) (id :: rs_data rs)))
+                 (Some (mkResp (rs_type rs) (rs_src rs) (rs_cc rs) (rs_mc rs)
+                               (match rs_data rs with [] => [] | _ => id :: rs_data rs end) (rs_pid rs)))
                  (r_frames r)
   end.
 
@@ -240,7 +243,7 @@ Definition take_next (s : st) (ag : list frame) : st * list frame :=
   else maybe_send s ag.
 
 (* RunCallback(reply): pops the front request and runs its completion callback *)
-Definition run_callback (rep : reply) (parts : list (list N)) (froms : list N) (s : st) (ag : list frame)
+Definition run_callback (rep : reply) (parts : list resp) (froms : list N) (s : st) (ag : list frame)
   : st * list frame :=
   match s_queue s with
   | [] => (set_g_fatal true s, ag)      (* front() of an empty queue: callers exclude it *)
@@ -273,7 +276,7 @@ Definition handle (from : N) (rep : reply) (s : st) (ag : list frame) : st * lis
         run_callback (mkReply (r_status rep) None nf) [] froms s (FTakeNext :: ag)
       | Some rs =>
         let nf := s_nframes s + r_frames rep in
-        let parts := g_parts s ++ [rs_data rs] in
+        let parts := g_parts s ++ [rs] in
         match combine acc rs with
         | None =>
           let s := set_g_from [] (set_g_parts [] (set_s_nframes 0 (set_s_resp None s))) in
@@ -291,11 +294,11 @@ Definition handle (from : N) (rep : reply) (s : st) (ag : list frame) : st * lis
       | Some rs =>
         if rs_type rs =? ACK_OVERFLOW then
           (* start of an ACK_OVERFLOW sequence *)
-          continue_overflow (set_g_from froms (set_g_parts [rs_data rs]
+          continue_overflow (set_g_from froms (set_g_parts [rs]
                                (set_s_nframes (r_frames rep) (set_s_resp (Some rs) s)))) ag
-        else run_callback rep [rs_data rs] froms s (FTakeNext :: ag)
+        else run_callback rep [rs] froms s (FTakeNext :: ag)
       | None =>
-        run_callback rep (match r_resp rep with Some rs => [rs_data rs] | None => [] end) froms s
+        run_callback rep (match r_resp rep with Some rs => [rs] | None => [] end) froms s
                      (FTakeNext :: ag)
       end
     end.
@@ -476,8 +479,8 @@ Definition comp_data_ok (c : comp) : bool :=
   match r_resp (c_reply c) with
   | None => true
   | Some rs =>
-    (if list_eq_dec N.eq_dec (rs_data rs) (concat (c_parts c)) then true else false) &&
-    forallb (fun p => match p with x :: _ => x =? c_id c | [] => false end) (c_parts c)
+    (if list_eq_dec N.eq_dec (rs_data rs) (concat (map rs_data (c_parts c))) then true else false) &&
+    forallb (fun p => match rs_data p with x :: _ => x =? c_id c | [] => true end) (c_parts c)
   end.
 Definition bad_data (l : list comp) : nat := length (filter (fun c => negb (comp_data_ok c)) l).
 (* submitted ids without a completion *)
